@@ -118,6 +118,12 @@ Inductive case :=
 | CWake (cap batch : Z) (alerts : list Z) (woken : bool) (out : list Z) (after : ostate)
 (* concurrent pushers (ids p*10^6 + i) and poppers, capacity >= number of alerts *)
 | CConc (cap batch pushers per_pusher : Z) (batches : list (list (list Z))) (completed : bool)
+(* [pre] pushes executed one after the other; then Pop is started with the queue
+   mutex held by the harness (it receives the token and blocks on the mutex) and
+   the pushes [mids] are started one by one, each blocking on the mutex; the
+   mutex is released; observed: Pop's batch and the final queue and token. The
+   order in which the blocked calls got the mutex is not observed. *)
+| CMid (cap batch : Z) (pre mids : list (list Z)) (out : list Z) (after : ostate)
 | CSkip.
 
 (* negative ids carry the label the relabel configuration drops *)
@@ -141,6 +147,31 @@ Fixpoint seq_ok (cap batch : Z) (s : st) (ops : list op) : bool :=
     negb (tok s) && ostate_eqb s after && seq_ok cap batch s r
   end.
 
+(* all ways to insert x into l *)
+Fixpoint inserts {A} (x : A) (l : list A) : list (list A) :=
+  match l with
+  | [] => [[x]]
+  | y :: r => (x :: l) :: map (cons y) (inserts x r)
+  end.
+
+Fixpoint perms {A} (l : list A) : list (list A) :=
+  match l with
+  | [] => [[]]
+  | x :: r => concat (map (inserts x) (perms r))
+  end.
+
+(* candidate schedules of a CMid run: the pushes in any order, Pop's critical
+   section at any position among them *)
+Definition mid_candidates (pre mids : list (list Z)) (out : list Z) : list (list label) :=
+  map (fun tl => map LPush pre ++ LTake :: tl)
+      (concat (map (inserts (LCrit out)) (perms (map LPush mids)))).
+
+Definition accepts (cap batch : Z) (tr : list label) (after : ostate) : bool :=
+  match run cap batch keep_nonneg init tr with
+  | Some s => ostate_eqb s after
+  | None => false
+  end.
+
 Definition corr_ok (c : case) : bool :=
   match c with
   | CSeq cap batch ops => seq_ok cap batch init ops
@@ -152,6 +183,9 @@ Definition corr_ok (c : case) : bool :=
       | None => negb woken && ostate_eqb s1 after
       end
   | CConc _ _ _ _ _ _ => true      (* schedule chosen by the Go runtime: only the predicate applies *)
+  | CMid cap batch pre mids out after =>
+      (* the observation is explained by one of the schedules of the model *)
+      existsb (fun tr => accepts cap batch tr after) (mid_candidates pre mids out)
   | CSkip => true
   end.
 
@@ -207,6 +241,20 @@ Fixpoint seqZ (from : Z) (n : nat) : list Z :=
 Fixpoint count_occ_z (x : Z) (l : list Z) : nat :=
   match l with [] => O | y :: r => (if x =? y then 1 else 0) + count_occ_z x r end.
 
+(* the property on a schedule and what was observed at its end, with no popper
+   left between its two halves: capacity, batch sizes, token while non-empty,
+   the queue is the newest part of the kept pushes, the popped alerts and the
+   queue are in push order *)
+Definition crit_sizes_ok (batch : Z) (tr : list label) : bool :=
+  forallb (fun l => match l with LCrit out => len out <=? batch | _ => true end) tr.
+
+Definition obs_pred (cap batch : Z) (tr : list label) (after : ostate) : bool :=
+  (len (fst after) <=? cap)
+  && (match fst after with [] => true | _ => snd after end)
+  && crit_sizes_ok batch tr
+  && is_suffix (fst after) (kept keep_nonneg tr)
+  && is_subseq (popped tr ++ fst after) (kept keep_nonneg tr).
+
 Definition pred_ok (c : case) : bool :=
   match c with
   | CSeq cap batch ops => forallb (prefix_ok cap batch) (prefixes ops)
@@ -232,5 +280,8 @@ Definition pred_ok (c : case) : bool :=
              let mine := filter (fun a => (p * 1000000 <=? a) && (a <? (p + 1) * 1000000)) (concat bs) in
              is_subseq mine (map (fun i => p * 1000000 + i) (seqZ 0 (Z.to_nat per_pusher))))
              (seqZ 0 (Z.to_nat pushers))) batches
+  | CMid cap batch pre mids out after =>
+      (* holds for the order in which the blocked calls actually ran: one of the candidates *)
+      existsb (fun tr => obs_pred cap batch tr after) (mid_candidates pre mids out)
   | CSkip => true
   end.
